@@ -51,15 +51,18 @@ static int ndirect;
 
 static uint64_t wmask(int f) { return fam_width[f] == 64 ? ~0ull : ((1ull << fam_width[f]) - 1); }
 
+#define UPPER(x) (((x) & 1) ? 0xdecafbad00000000ull : 0)
 static uint64_t call_impl(const struct impl *im, uint64_t seed, uint8_t *buf, size_t len, uint8_t *dst)
 {
 	/* every kernel call is made with the caller-saved vector/mask registers, rax, r10, r11 and the flags poisoned (engine/pcall.S) */
 	v_pcall_mode = 1 + (int)(len & 1);
 	switch (im->fam) {
-	case F_T10: return (uint16_t)PCALL(im->fn, (uint16_t)seed, buf, len);
-	case F_T10C: return (uint16_t)PCALL(im->fn, (uint16_t)seed, dst, buf, len);
-	case F_IEEE: case F_GZIP: case F_ADLER: return (uint32_t)PCALL(im->fn, (uint32_t)seed, buf, len);
-	case F_ISCSI: return (uint32_t)PCALL(im->fn, buf, (int)len, (unsigned)seed);
+	/* arguments narrower than 64 bits travel in 64-bit registers whose upper half is unspecified by the psABI (a caller that
+	 * narrows a 64-bit value passes it as it is): every other call sets bits 63..32 of those registers */
+	case F_T10: return (uint16_t)PCALL(im->fn, (uint64_t)(uint16_t)seed | UPPER(len), buf, len);
+	case F_T10C: return (uint16_t)PCALL(im->fn, (uint64_t)(uint16_t)seed | UPPER(len), dst, buf, len);
+	case F_IEEE: case F_GZIP: case F_ADLER: return (uint32_t)PCALL(im->fn, (uint64_t)(uint32_t)seed | UPPER(len), buf, len);
+	case F_ISCSI: return (uint32_t)PCALL(im->fn, buf, (uint64_t)(uint32_t)len | UPPER(len + 1), (uint64_t)(uint32_t)seed | UPPER(len));
 	default: return PCALL(im->fn, seed, buf, len);
 	}
 }
